@@ -728,20 +728,34 @@ class PathCtx:
         try:
             if not z3.is_app(a) or a.decl().kind() != z3.Z3_OP_MUL:
                 return
-            kids = a.children()
-            for i, kid in enumerate(kids):
-                if kid.eq(b):
-                    rest = [x for j, x in enumerate(kids) if j != i]
-                    k = rest[0]
-                    for x in rest[1:]:
-                        k = k * x
-                    key = (a.get_id(), b.get_id())
-                    if key in self._hinted:
-                        return
-                    self._hinted.add(key)
-                    self.solver.add(z3.Implies(b != 0, z3.And(a % b == 0, a / b == k)))
-                    self.lemma_instances = getattr(self, "lemma_instances", 0) + 1
+
+            def factors(t):
+                if z3.is_app(t) and t.decl().kind() == z3.Z3_OP_MUL:
+                    out = []
+                    for ch in t.children():
+                        out.extend(factors(ch))
+                    return out
+                return [t]
+
+            fa, fb = factors(a), factors(b)
+            rest = list(fa)
+            for f_ in fb:
+                for i, g_ in enumerate(rest):
+                    if g_.eq(f_):
+                        rest.pop(i)
+                        break
+                else:
                     return
+            key = (a.get_id(), b.get_id())
+            if key in self._hinted:
+                return
+            self._hinted.add(key)
+            k = z3.IntVal(1)
+            for x in rest:
+                k = k * x
+            self.solver.add(z3.Implies(b != 0, z3.And(a % b == 0, a / b == k)))
+            self.lemma_instances = getattr(self, "lemma_instances", 0) + 1
+            return
         except z3.Z3Exception:
             return
 
